@@ -23,11 +23,16 @@ from . import common
 from .common import Check, Graph, impl_call, skey
 
 INVS = ["Attributed", "OnlyGranted", "Newest", "TempOnce", "SeedReqOK", "SeedRespOK", "ProxyStable"]
-CONSTS = "NR = %(NR)d MaxSeed = %(MaxSeed)d MaxTemp = %(MaxTemp)d Grants = {%(Grants)s} Depth = %(Depth)d"
+CONSTS = ("NR = %(NR)d MaxSeed = %(MaxSeed)d MaxTemp = %(MaxTemp)d Grants = {%(Grants)s} PO = {%(PO)s} Wants = {%(Wants)s} "
+          "Depth = %(Depth)d")
+P1 = '"ProxyP"'
+P2 = '"ProxyP", "ProxyQ"'
+
 
 TYPE_LETTER = {"NORMAL": "N", "TEMPORARY": "T", "WRAPPER": "W", "PROXY_ONLY": "P"}
 EXT = "/ext?q=1"
 X_SUFFIX = "22"
+T_SUFFIX = "/uploader-7f"      # a one-shot URL underneath a cap URL
 
 
 # ----------------------------------------------------------------------------------------
@@ -90,7 +95,7 @@ class World:
         else:
             base = self.ids[head]
         for seg in u[1:]:
-            base += X_SUFFIX if seg == "x" else EXT
+            base += {"x": X_SUFFIX, "t": T_SUFFIX, "e": EXT}[seg]
         return base
 
     # --- public lookups -------------------------------------------------------------------
@@ -120,12 +125,12 @@ class World:
         if n == "RegisterTemp":
             return impl_call(self.regions[act["r"]].register_cap, "UpTemp", self.concrete(act["u"]), CapType.TEMPORARY)
         if n == "RegisterProxy":
-            return impl_call(self.regions[act["r"]].register_proxy_cap, "ProxyP")
+            return impl_call(self.regions[act["r"]].register_proxy_cap, act["name"])
         if n == "Resolve":
             return "ok", self.resolve(self.concrete(act["q"]))[0]
         if n == "SeedReq":
             def req():
-                f = tflow.tflow(req=tutils.treq(method=b"POST", content=llsd.format_xml(sorted(act["wanted"]))))
+                f = tflow.tflow(req=tutils.treq(method=b"POST", content=llsd.format_xml(list(act["wanted"]))))
                 f.request.url = self.ids["r%ds" % act["r"]]
                 f.metadata["cap_data_ser"] = SerializedCapData()
                 hf = HippoHTTPFlow.from_state(f.get_state(), self.sm)
@@ -208,25 +213,25 @@ class World:
             if gt != t:
                 bad.append(("byname", "type", [r, name], t, gt))
         # destructive, therefore last: k live one-shot registrations resolve exactly k times
-        for r, u, k in obs["temps"]:
+        for r, u, k, after in obs["temps"]:
             url = self.concrete(u)
             s = 1 if r <= 2 else 2
             seq = []
             for i in range(k + 1):
                 n += 1
                 seq.append(self.resolve(url + (EXT if i % 2 else ""))[0])
-            exp = [["UpTemp", "T", r, s]] * k + [["-", "-", 0, 0]]
-            if seq != exp:
-                bad.append(("temp-once", "count", u, exp, seq))
+            # k answers from the one-shot cap, then whatever is left (nothing, or the granted cap the URL extends)
+            if seq[:k] != [["UpTemp", "T", r, s]] * k or seq[k] not in after:
+                bad.append(("temp-once", "count", u, [["UpTemp", "T", r, s]] * k + [after], seq))
         # destructive probe: a further registration of the proxy-only cap yields the URL of the first one, in every
         # state (a hidden change made by a seed round trip shows here, whatever path the BFS tree took), and lookup
         # by name still yields that URL afterwards
-        for r, u in obs["proxy"]:
+        for r, name, u in obs["proxy"]:
             n += 2
-            got = impl_call(self.regions[r].register_proxy_cap, "ProxyP")
-            after = impl_call(self.regions[r].cap_urls.get, "ProxyP")
+            got = impl_call(self.regions[r].register_proxy_cap, name)
+            after = impl_call(self.regions[r].cap_urls.get, name)
             if got != ("ok", self.concrete(u)) or after != ("ok", self.concrete(u)):
-                bad.append(("proxy-stable", "probe", [r], self.concrete(u), [got, after]))
+                bad.append(("proxy-stable", "probe", [r, name], self.concrete(u), [got, after]))
         return n, bad
 
 
@@ -360,8 +365,8 @@ def _algo(chk: Check, consts, label):
     (the pinned tree's resolve_cap loop / register_proxy_cap indices) TLC produces the 5- and 3-state
     counterexamples of the two genuine defects, with DedupeAdd = TRUE (update_caps skipping a pair the name
     already has) the 7-state one of the grant history a, c, a; the real code is never judged against this layer."""
-    cfg = ("SPECIFICATION ASpec\nCONSTANTS %s FirstMatch = FALSE SwappedIndex = FALSE DedupeAdd = FALSE\nCONSTRAINT Bound\n" % (CONSTS % consts)
-           + "".join("INVARIANT %s\n" % i for i in ("AlgoResolves", "AlgoTemps", "AlgoByName", "AlgoProxyStable")))
+    cfg = ("SPECIFICATION ASpec\nCONSTANTS %s FirstMatch = FALSE SwappedIndex = FALSE DedupeAdd = FALSE IterRemove = FALSE\nCONSTRAINT Bound\n" % (CONSTS % consts)
+           + "".join("INVARIANT %s\n" % i for i in ("AlgoResolves", "AlgoTemps", "AlgoByName", "AlgoProxyStable", "AlgoUpstream")))
     common.model_check(chk, "Caps_Algo", cfg, "Caps_Algo " + label)
 
 
@@ -375,19 +380,27 @@ def run(chk: Check):
         "prefix-related URLs therefore live in one region",
         "seed URLs are distinct per region and fixed; requested cap names are listed once",
         "plain asset-server caps (GetMesh, ViewerAsset) may resolve with or without region/session (left open), never to a wrong one",
-        "the shorter of two prefix-related URLs is never a one-shot cap",
+        "URLs the proxy mints itself (wrapper / proxy-only) are on its own host names and therefore never prefix-related to "
+        "simulator URLs; one-shot URLs registered through register_cap are (above and below granted URLs)",
     ]
     if chk.tier == "quick":
-        _b1(chk, dict(NR=2, MaxSeed=2, MaxTemp=2, Grants="1,2,3,4,5,6,7", Depth=5), "2r-d5", 6000)
+        _b1(chk, dict(NR=2, MaxSeed=2, MaxTemp=2, Grants="1,2,3,4,5,6,7,9", PO=P1, Wants="1,2", Depth=5), "2r-d5", 6000)
         # two sessions, asset URL shared across sessions (no one-shot caps)
-        _b1(chk, dict(NR=3, MaxSeed=2, MaxTemp=0, Grants="1,5,6", Depth=5), "3r-d5-small", 2000)
+        _b1(chk, dict(NR=3, MaxSeed=2, MaxTemp=0, Grants="1,5,6", PO=P1, Wants="1,2", Depth=5), "3r-d5-small", 2000)
         # long grant histories of ONE name in one region: re-grants of an earlier URL (a c a, a c a c, a ax a ..)
-        _b1(chk, dict(NR=1, MaxSeed=4, MaxTemp=0, Grants="1,2,8", Depth=9), "1r-regrant-d9", 1500)
-        _algo(chk, dict(NR=2, MaxSeed=2, MaxTemp=1, Grants="1,3", Depth=5), "2r-d5-small")
+        _b1(chk, dict(NR=1, MaxSeed=4, MaxTemp=0, Grants="1,2,8", PO=P1, Wants="1,2", Depth=9), "1r-regrant-d9", 1500)
+        # two proxy-only caps, seed requests naming them in every order / adjacency
+        _b1(chk, dict(NR=1, MaxSeed=2, MaxTemp=0, Grants="1,5", PO=P2, Wants="1,2,3,4,5,6,7", Depth=7), "1r-proxy2-d7", 1000)
+        # one-shot URLs above / below granted URLs, registered before and after the grant, consumed, re-registered
+        _b1(chk, dict(NR=1, MaxSeed=2, MaxTemp=2, Grants="1,3,9", PO="", Wants="1", Depth=8), "1r-temps-d8", 1000)
+        _algo(chk, dict(NR=1, MaxSeed=2, MaxTemp=1, Grants="1,3,9", PO=P2, Wants="1,3,5", Depth=6), "1r-d6-small")
     else:
-        _b1(chk, dict(NR=3, MaxSeed=2, MaxTemp=1, Grants="1,2,3,4,5,6,7", Depth=5), "3r-d5", 20000)
-        _b1(chk, dict(NR=2, MaxSeed=3, MaxTemp=2, Grants="1,2,3,4,5,6,7,8", Depth=6), "2r-d6", 30000)
-        _b1(chk, dict(NR=1, MaxSeed=5, MaxTemp=0, Grants="1,2,3,8", Depth=11), "1r-regrant-d11", 10000)
-        _algo(chk, dict(NR=2, MaxSeed=2, MaxTemp=1, Grants="1,2,3,4,5,6,7,8", Depth=5), "2r-d5")
-        _algo(chk, dict(NR=1, MaxSeed=4, MaxTemp=0, Grants="1,2,8", Depth=9), "1r-regrant-d9")
+        _b1(chk, dict(NR=3, MaxSeed=2, MaxTemp=1, Grants="1,2,3,4,5,6,7,9", PO=P1, Wants="1,2", Depth=5), "3r-d5", 20000)
+        _b1(chk, dict(NR=2, MaxSeed=3, MaxTemp=2, Grants="1,2,3,4,5,6,7,8,9", PO=P1, Wants="1,2", Depth=6), "2r-d6", 30000)
+        _b1(chk, dict(NR=1, MaxSeed=5, MaxTemp=0, Grants="1,2,3,8", PO=P1, Wants="1,2", Depth=11), "1r-regrant-d11", 10000)
+        _b1(chk, dict(NR=2, MaxSeed=2, MaxTemp=0, Grants="1,5", PO=P2, Wants="1,2,3,4,5,6,7", Depth=7), "2r-proxy2-d7", 10000)
+        _b1(chk, dict(NR=1, MaxSeed=3, MaxTemp=2, Grants="1,2,3,9", PO=P1, Wants="1,2", Depth=9), "1r-temps-d9", 10000)
+        _algo(chk, dict(NR=2, MaxSeed=2, MaxTemp=1, Grants="1,2,3,4,5,6,7,8,9", PO=P1, Wants="1,2", Depth=5), "2r-d5")
+        _algo(chk, dict(NR=1, MaxSeed=4, MaxTemp=0, Grants="1,2,8", PO=P1, Wants="1,2", Depth=9), "1r-regrant-d9")
+        _algo(chk, dict(NR=1, MaxSeed=2, MaxTemp=1, Grants="1,3,9", PO=P2, Wants="1,2,3,4,5,6,7", Depth=7), "1r-proxy2-d7")
     chk.cov["exhaustive"] = True
